@@ -214,7 +214,7 @@ DenseRefines2(S, T) ==
                                       /\ DenseMaxDiff(S, T) = MaxDiff(View(S), View(T))
     \* dot: on every pair on which the statement defines it, guard and value are the ADT's
     /\ DotDefined(View(S), View(T)) =>
-          /\ DenseDotPanics(S, T) <=> ~SameShape(View(S), View(T))
+          /\ DenseDotPanics(S, T) <=> ~EnDotM(View(S), View(T))
           /\ ~DenseDotPanics(S, T) => DenseDot(S, T) = Dot(View(S), View(T))
     /\ EnHStack(View(S), View(T)) => View(DenseHStack(S, T)) = HStack(View(S), View(T))
     /\ EnVStack(View(S), View(T)) => View(DenseVStack(S, T)) = VStack(View(S), View(T))
@@ -240,7 +240,7 @@ BindingFacts ==
     /\ IsF(A) => Vec(NaToRowVector(A)) = ToRowVector(View(A))
     /\ NaMax(A) = MaxOf(View(A)) /\ NaMin(A) = MinOf(View(A))
     /\ DotDefined(View(A), View(B)) =>
-           /\ NdDotPanics(A, B) <=> ~SameShape(View(A), View(B))
+           /\ NdDotPanics(A, B) <=> ~EnDotM(View(A), View(B))
            /\ ~NdDotPanics(A, B) => NdDot(A, B) = Dot(View(A), View(B))
     /\ NdEq(A, B) <=> EqM(View(A), View(B))
     \* ---- the memory-order variants
